@@ -27,12 +27,6 @@ def leafE : X.Expr → Bool
 theorem leaf_pure (e : X.Expr) (h : leafE e = true) : pureE e = true := by
   cases e <;> simp [leafE, pureE] at h ⊢
 
-/-- The system-call id `ConstProp` finds for a called name (`-1`: none, a user call). -/
-def sysOf (ρ : String → Option Word) (f : String) : Int :=
-  match ρ f with
-  | some w => w.toInt
-  | none => -1
-
 mutual
 /-- `ConstProp` on the statements of stage (3). -/
 def annotS (ρ : String → Option Word) : X.Stmt → AStmt
@@ -134,8 +128,8 @@ theorem Rep.assign {K : PCtx} {exitJ : Nat} (wf : K.WFS exitJ) {σ σ' : X.St} {
       by_cases hmn : m = n
       · subst hmn; exact absurd hrd (readName_write_noarr K.xc σ σ' m w r hw)
       · rw [readName_write_other K.xc σ σ' n m w hw hmn] at hrd
-        obtain ⟨id, a', hid, hloc', hlt', hv'⟩ := hr.aptr m r hrd
-        refine ⟨id, a', hid, hloc', hlt', ?_⟩
+        obtain ⟨a', hloc', hlt', hv'⟩ := hr.aptr m r hrd
+        refine ⟨a', hloc', hlt', ?_⟩
         rw [Mem.read_write_other _ _ _ _ (fun e => hmn (wf.loc_inj m n a' hloc' (by rw [← e]; exact hloc)))]
         exact hv'
     acells := by
@@ -150,6 +144,10 @@ theorem Rep.assign {K : PCtx} {exitJ : Nat} (wf : K.WFS exitJ) {σ σ' : X.St} {
       have := (wf.arr_hi id (by omega)).1
       rw [Mem.read_write_other _ _ _ _ (by omega)]
       exact hv' idx w' hi
+    strs := by
+      intro l bs ws j k hm hp hd idx hidx
+      rw [Mem.read_write_other _ _ _ _ (fun e => wf.str.sep l bs ws j k n a idx hm hp hd hloc hidx e.symm)]
+      exact hr.strs l bs ws j k hm hp hd idx hidx
     gvis := by
       intro m hm
       rcases writeName_cases K.xc σ σ' n w hw with ⟨o, hl, rfl⟩ | ⟨hl, hg, rfl⟩
@@ -260,8 +258,8 @@ theorem Rep.assignSub {K : PCtx} (wf : K.WF) {σ : X.St} {mem : Mem} {id : Nat} 
     depth := hr.depth
     aptr := by
       intro n r hrd
-      obtain ⟨id', a, hid, hloc, hlt, hv⟩ := hr.aptr n r hrd
-      exact ⟨id', a, hid, hloc, hlt, by rw [hother a (wf.loc_na n a hloc)]; exact hv⟩
+      obtain ⟨a, hloc, hlt, hv⟩ := hr.aptr n r hrd
+      exact ⟨a, hloc, hlt, by rw [hother a (wf.loc_na n a hloc)]; exact hv⟩
     acells := by
       intro id' cells' hc'
       have hc'' : (σ.arrays.setIfInBounds id (cells.setIfInBounds iv.toInt.toNat (some w)))[id']? = some cells' := hc'
@@ -294,7 +292,17 @@ theorem Rep.assignSub {K : PCtx} (wf : K.WF) {σ : X.St} {mem : Mem} {id : Nat} 
         have hlt := cell_lt hi
         have hd := wf.arr_disj id id' hid hz (by omega)
         rw [Mem.read_write_other _ _ _ _ (by omega)]
-        exact hcv' idx w' hi }
+        exact hcv' idx w' hi
+    strs := by
+      intro l bs ws j k hm hp hd idx hidx
+      obtain ⟨j', k', hd', _, _, hlt⟩ := wf.str.lbl l bs ws hm hp
+      have hj : j = j' := by
+        have e1 := labelIdx_of_nodup _ _ _ _ wf.nodup hd
+        have e2 := labelIdx_of_nodup _ _ _ _ wf.nodup hd'
+        rw [e1] at e2; simpa using e2
+      subst hj
+      rw [hlow _ (by omega)]
+      exact hr.strs l bs ws j k hm hp hd idx hidx }
 
 /-- What the machine does for a statement whose execution has the result `r`: runs to `jEnd`
     (normal completion), to the procedure's exit label with the value in areg (`return`), or to the
@@ -391,7 +399,7 @@ theorem noCallA_annotate (ρ : String → Option Word) : ∀ (e : X.Expr), pureE
   | .num _, _ => by simp [annotate, noCallA]
   | .bool _, _ => by simp [annotate, noCallA]
   | .name _, _ => by simp [annotate, noCallA]
-  | .str _, h => by simp [pureE] at h
+  | .str _, _ => by simp [annotate, noCallA]
   | .sub _ i, h => by simp only [pureE] at h; simp [annotate, noCallA, noCallA_annotate ρ i h]
   | .call _ _, h => by simp [pureE] at h
   | .syscall _ _, h => by simp [pureE] at h
